@@ -471,20 +471,27 @@ def scan_check(tier, seed):
     """A site that is not in the reviewed list, or a missing guard, breaks the tie between the model's list of order- and
     draw-sensitive sites and the code; no input is known on which the output differs (the process comparison of this
     check looks for one), so it is reported as a broken correspondence (VIOLATION ... no-failing-input-found).  A reviewed
-    site whose expression now stands in another function of the same file (code moved into a helper) stays reviewed."""
+    site whose expression now stands in another function of the same file (code moved into a helper), or whose
+    expression is spelled differently in the same function (renamed local; one reviewed entry answers for one such site), stays
+    reviewed."""
     sites = scan_repo(REPO)
     problems = []
     seen = {(s["file"], s["func"], s["kind"], s["expr"]) for s in sites}
-    vacated = {}
+    vacated, vacated_fn = {}, {}
     for (f, fn, k, e) in REVIEWED:
         if (f, fn, k, e) not in seen:
-            vacated.setdefault((f, k, e), []).append(fn)
+            vacated.setdefault((f, k, e), []).append(fn)          # same expression, now in another function (moved)
+            vacated_fn.setdefault((f, fn, k), []).append(e)       # same function and kind, other spelling (renamed local)
     moved = []
     for s in sites:
         key = (s["file"], s["func"], s["kind"], s["expr"])
         if key not in REVIEWED:
             if vacated.get((s["file"], s["kind"], s["expr"])):
                 moved.append({"site": list(key), "reviewed_as": vacated[(s["file"], s["kind"], s["expr"])]})
+                continue
+            if vacated_fn.get((s["file"], s["func"], s["kind"])):
+                # one reviewed entry answers for one respelled site
+                moved.append({"site": list(key), "reviewed_as_expr": vacated_fn[(s["file"], s["func"], s["kind"])].pop(0)})
                 continue
             problems.append(Problem("correspondence", "scan", s,
                                     {"broken": "C20: correspondence scan - a set iteration / join of a set / draw at a site that is not "
